@@ -1,5 +1,6 @@
 SPECIFICATION TSpec
 CONSTANTS
+  GridN = 1
   MaxSmall = 4
   BigSizes = {20000}
 INVARIANT Report
